@@ -281,8 +281,10 @@ pub fn cfg(kind: Kind) -> impl Strategy<Value = Cfg> {
         prop_oneof![2 => Just(0.05f32), 1 => 0.01f32..1.0],
         prop_oneof![2 => Just((0.05f32, 0.00625f32)), 1 => (0.02f32..0.1, 0.003f32..0.02)],
         vis_cfg(),
+        // spatio-temporal constraints: mostly none, sometimes a (possibly binding) table
+        prop_oneof![4 => Just(None), 1 => proptest::collection::vec((0usize..6, prop_oneof![Just(0.1f32), Just(0.5), Just(2.0), 0.05f32..3.0]), 1..4).prop_map(Some)],
     )
-        .prop_map(move |(shards, voting_shards, history, max_idle, pos, min_conf, (wp, wv), vis)| Cfg { kind, shards, voting_shards, history, max_idle, pos, min_conf, constraints: None, wp, wv, vis })
+        .prop_map(move |(shards, voting_shards, history, max_idle, pos, min_conf, (wp, wv), vis, constraints)| Cfg { kind, shards, voting_shards, history, max_idle, pos, min_conf, constraints, wp, wv, vis })
 }
 
 /// Histories for one tracker kind. `lifecycle` adds skip / wasted / idle / clear / auto-waste
